@@ -57,6 +57,7 @@ type Oblig struct {
 type KeyInfo struct {
 	sort string
 	kind string // field cell arr mdom mval ghost alloc visited
+	ref  string // "" | "ptr" | "slice": the stored values are references (closed-heap invariant)
 }
 
 // Gen is one verification unit: a function under contract (with its inlined callees).
@@ -131,11 +132,82 @@ func (g *Gen) sortOf(t types.Type) string { return g.sorts.sortOf(t) }
 
 // key registration ---------------------------------------------------------
 
+func refKind(t types.Type) string {
+	switch t.Underlying().(type) {
+	case *types.Pointer, *types.Map, *types.Chan:
+		return "ptr"
+	case *types.Slice:
+		return "slice"
+	}
+	return ""
+}
+
+func (g *Gen) regKeyT(k, sort, kind string, valT types.Type) {
+	if _, ok := g.keys[k]; ok {
+		return
+	}
+	g.regKey(k, sort, kind)
+	ki := g.keys[k]
+	ki.ref = refKind(valT)
+	g.keys[k] = ki
+}
+
+// heapBound: closed-heap invariant for a fresh version `term` of heap key k: every reference stored
+// in it was allocated before `alloc` (so later allocations cannot alias what is already stored).
+func (g *Gen) heapBound(k, term, alloc string) {
+	ki := g.keys[k]
+	if ki.ref == "" {
+		return
+	}
+	sel := func(x string) string {
+		if ki.ref == "slice" {
+			return "(sarr " + x + ")"
+		}
+		return x
+	}
+	switch ki.kind {
+	case "field", "cell":
+		g.assumeRaw(fmt.Sprintf("(forall ((|o| Int)) (! (<= %s %s) :pattern ((select %s |o|))))", sel(fmt.Sprintf("(select %s |o|)", term)), alloc, term))
+	case "arr":
+		g.assumeRaw(fmt.Sprintf("(forall ((|o| Int) (|i| Int)) (! (<= %s %s) :pattern ((select (select %s |o|) |i|))))", sel(fmt.Sprintf("(select (select %s |o|) |i|)", term)), alloc, term))
+	case "mval":
+		ks := ki.sort[len("(Array Int (Array "):]
+		ks = firstSort(ks)
+		g.assumeRaw(fmt.Sprintf("(forall ((|o| Int) (|k| %s)) (! (<= %s %s) :pattern ((select (select %s |o|) |k|))))", ks, sel(fmt.Sprintf("(select (select %s |o|) |k|)", term)), alloc, term))
+	}
+}
+
+// firstSort returns the first complete sort expression at the start of s.
+func firstSort(s string) string {
+	s = strings.TrimSpace(s)
+	if !strings.HasPrefix(s, "(") && !strings.HasPrefix(s, "|") {
+		if i := strings.IndexAny(s, " )"); i >= 0 {
+			return s[:i]
+		}
+		return s
+	}
+	if strings.HasPrefix(s, "|") {
+		return s[:strings.Index(s[1:], "|")+2]
+	}
+	depth := 0
+	for i, c := range s {
+		if c == '(' {
+			depth++
+		} else if c == ')' {
+			depth--
+			if depth == 0 {
+				return s[:i+1]
+			}
+		}
+	}
+	return s
+}
+
 func (g *Gen) regKey(k, sort, kind string) {
 	if _, ok := g.keys[k]; ok {
 		return
 	}
-	g.keys[k] = KeyInfo{sort, kind}
+	g.keys[k] = KeyInfo{sort: sort, kind: kind}
 	g.keyOrder = append(g.keyOrder, k)
 	g.newKeys = true
 }
@@ -143,19 +215,19 @@ func (g *Gen) regKey(k, sort, kind string) {
 func (g *Gen) fieldKey(T types.Type, idx int) string {
 	st := T.Underlying().(*types.Struct)
 	k := "H|" + typeKey(T) + "|" + st.Field(idx).Name()
-	g.regKey(k, "(Array Int "+g.sortOf(st.Field(idx).Type())+")", "field")
+	g.regKeyT(k, "(Array Int "+g.sortOf(st.Field(idx).Type())+")", "field", st.Field(idx).Type())
 	return k
 }
 
 func (g *Gen) cellKey(T types.Type) string {
 	k := "C|" + typeKey(T)
-	g.regKey(k, "(Array Int "+g.sortOf(T)+")", "cell")
+	g.regKeyT(k, "(Array Int "+g.sortOf(T)+")", "cell", T)
 	return k
 }
 
 func (g *Gen) arrKey(elem types.Type) string {
 	k := "A|" + typeKey(elem)
-	g.regKey(k, "(Array Int (Array Int "+g.sortOf(elem)+"))", "arr")
+	g.regKeyT(k, "(Array Int (Array Int "+g.sortOf(elem)+"))", "arr", elem)
 	return k
 }
 
@@ -164,7 +236,7 @@ func (g *Gen) mapKeys(m *types.Map) (string, string) {
 	kd := "Md|" + typeKey(m.Key()) + "|" + typeKey(m.Elem())
 	kv := "Mv|" + typeKey(m.Key()) + "|" + typeKey(m.Elem())
 	g.regKey(kd, "(Array Int (Array "+ks+" Bool))", "mdom")
-	g.regKey(kv, "(Array Int (Array "+ks+" "+vs+"))", "mval")
+	g.regKeyT(kv, "(Array Int (Array "+ks+" "+vs+"))", "mval", m.Elem())
 	return kd, kv
 }
 
@@ -185,6 +257,9 @@ func (g *Gen) get(s *State, k string) string {
 	if !g.declared[name] {
 		g.declared[name] = true
 		g.emit(fmt.Sprintf("(declare-const %s %s)", name, ki.sort))
+		if k != "$alloc" {
+			g.heapBound(k, name, "|$alloc@0|")
+		}
 	}
 	s.m[k] = name
 	return name
@@ -231,6 +306,11 @@ func (g *Gen) havocAll(s *State, why string) {
 	}
 	// allocation counter only grows
 	g.assumeRaw(fmt.Sprintf("(<= %s %s)", old, g.get(s, "$alloc")))
+	for _, k := range g.keyOrder {
+		if g.keys[k].ref != "" {
+			g.heapBound(k, g.get(s, k), g.get(s, "$alloc"))
+		}
+	}
 }
 
 func (g *Gen) assumeRaw(term string) {
@@ -379,6 +459,8 @@ type FnCtx struct {
 	named    map[string]*ssa.Alloc
 	lastVars map[string]Val
 	preVals  map[ssa.Value]Val
+	callContracts map[ssa.Instruction]*Contract
+	funcVals []funcVal
 	synthN   int
 	rangeN   int
 	lockSnap map[string]*State
